@@ -53,6 +53,10 @@ type PeerConnection struct {
 	iceConnectionState       atomic.Value // ICEConnectionState
 	connectionState          atomic.Value // PeerConnectionState
 
+	// connectionStateMu serializes updates of connectionState, they come from
+	// the ICE agent, the operations queue and Close().
+	connectionStateMu sync.Mutex
+
 	idpLoginURL *string
 
 	isClosed                                *atomic.Bool
@@ -826,11 +830,32 @@ func (pc *PeerConnection) createICEGatherer() (*ICEGatherer, error) {
 	return g, nil
 }
 
+// refreshConnectionState updates the PeerConnectionState from the current state
+// of the transports. The states are read while holding connectionStateMu, so the
+// update that runs last has seen the latest states.
+func (pc *PeerConnection) refreshConnectionState() {
+	pc.connectionStateMu.Lock()
+	defer pc.connectionStateMu.Unlock()
+
+	pc.updateConnectionStateLocked(pc.ICEConnectionState(), pc.dtlsTransport.State())
+}
+
 // Update the PeerConnectionState given the state of relevant transports
 // https://www.w3.org/TR/webrtc/#rtcpeerconnectionstate-enum
+func (pc *PeerConnection) updateConnectionState(
+	iceConnectionState ICEConnectionState,
+	dtlsTransportState DTLSTransportState,
+) {
+	pc.connectionStateMu.Lock()
+	defer pc.connectionStateMu.Unlock()
+
+	pc.updateConnectionStateLocked(iceConnectionState, dtlsTransportState)
+}
+
+// updateConnectionStateLocked requires the caller holds connectionStateMu.
 //
 //nolint:cyclop
-func (pc *PeerConnection) updateConnectionState(
+func (pc *PeerConnection) updateConnectionStateLocked(
 	iceConnectionState ICEConnectionState,
 	dtlsTransportState DTLSTransportState,
 ) {
@@ -901,7 +926,7 @@ func (pc *PeerConnection) createICETransport() *ICETransport {
 			return
 		}
 		pc.onICEConnectionStateChange(cs)
-		pc.updateConnectionState(cs, pc.dtlsTransport.State())
+		pc.refreshConnectionState()
 	})
 
 	return transport
@@ -2610,7 +2635,7 @@ func (pc *PeerConnection) close(shouldGracefullyClose bool) error { //nolint:cyc
 	}
 
 	// https://www.w3.org/TR/webrtc/#dom-rtcpeerconnection-close (step #11)
-	pc.updateConnectionState(pc.ICEConnectionState(), pc.dtlsTransport.State())
+	pc.refreshConnectionState()
 
 	closeErrs = append(closeErrs, doGracefulCloseOps()...)
 
@@ -2832,7 +2857,7 @@ func (pc *PeerConnection) startTransports(
 		Role:         dtlsRole,
 		Fingerprints: []DTLSFingerprint{{Algorithm: fingerprintHash, Value: fingerprint}},
 	})
-	pc.updateConnectionState(pc.ICEConnectionState(), pc.dtlsTransport.State())
+	pc.refreshConnectionState()
 	if err != nil {
 		pc.log.Warnf("Failed to start manager: %s", err)
 
